@@ -3,6 +3,8 @@
 # quick checks; every check must exit 0. Default: all 20.
 patch="$1"; shift
 checks="$@"; [ -z "$checks" ] && checks="C01 C02 C03 C04 C05 C06 C07 C08 C09 C10 C11 C12 C13 C14 C15 C16 C17 C18 C19 C20"
+# runs against a changed tree must not overwrite the evidence of the unchanged one
+export VERIF_EVIDENCE_DIR=/tmp/verif_seed_evidence; mkdir -p $VERIF_EVIDENCE_DIR
 cd /repo || exit 2
 if ! git diff HEAD --quiet; then echo "trybenign: /repo not clean"; exit 2; fi
 git apply "$patch" || { echo "trybenign: patch does not apply"; exit 2; }
